@@ -104,6 +104,51 @@ def unwind(stack, kinds):
     return k
 
 
+def block_api_error_programs(run, tier):
+    """Event sequences of the block API (from Branching.tla) that end in a structural error raised by the API itself while it
+    leaves a branch ("branch did not set value", "if branch set ... and no else branch", ...), at top level and inside a
+    guarded region; the caller catches the error.  Expected history for Guard.tla: the error is a raise (+ unwinding)."""
+    import os
+    from harness import tlc
+    with common.scratch("brx_") as d:
+        cf = os.path.join(d, "gen.cfg")
+        open(cf, "w").write("SPECIFICATION Spec\nCONSTANT MaxLen = 5\nCONSTANT MaxDepth = 2\nINVARIANT EmitErr\nCHECK_DEADLOCK FALSE\n")
+        res = tlc.run("Branching", cfg=cf, workers=8)
+    run.add_tlc(res, "Branching.tla: event sequences ending in a structural error of the block API")
+    behs = [json.loads(json.loads(r)) for r in sorted(set(res.tagged("ERR")))]
+
+    def outermost(h):
+        # the error must be raised while the OUTERMOST block is being left: an exception inside a block that stays open has no
+        # abort path in this API (the enclosing block can never be closed), which the property does not speak about
+        d = 0
+        for e in h[:-1]:
+            if e["a"] == "if" or (e["a"] == "while" and not (d > 0 and kinds[-1] == "while")):
+                d += 1
+                kinds.append(e["a"])
+            elif e["a"] in ("endif", "endwhile"):
+                d -= 1
+                kinds.pop()
+        return d == 1
+    keep = []
+    for bh in behs:
+        kinds = []
+        if outermost(bh["hist"]):
+            keep.append(bh)
+    behs = keep
+    step = max(1, len(behs) // (150 if tier == "quick" else 1500))
+    progs = []
+    for i, bh in enumerate(behs[::step]):
+        ev = {"op": "cfevents", "events": bh["hist"]}
+        progs.append({"id": "blk/top/%d" % i, "ign": False, "steps": [{"op": "try", "body": [ev]}, {"op": "new", "kind": "priv", "ty": "int", "v": 1}],
+                      "meta": {"hist": [{"a": "try", "c": 0}, {"a": "raise", "c": 0}, {"a": "call", "c": 0}]}})
+        for g in (0, 1):
+            progs.append({"id": "blk/g%d/%d" % (g, i), "ign": False,
+                          "steps": [{"op": "new", "kind": "priv", "ty": "int", "v": g, "tag": "cond"}, {"op": "try", "body": [{"op": "guarded", "cond": {"r": 0}, "body": [ev]}]},
+                                    {"op": "new", "kind": "priv", "ty": "int", "v": 1}],
+                          "meta": {"hist": [{"a": "try", "c": 0}, {"a": "enter", "c": g}, {"a": "raise", "c": 0}, {"a": "call", "c": 0}]}})
+    return progs
+
+
 def view(tr):
     evs = []
     for e in tr["events"]:
@@ -127,6 +172,8 @@ def view(tr):
             ev["c"] = 1 if g["ign"] else 0
         elif op == "end" or e.get("tag") == "cond":
             ev["ev"] = "marker"
+        elif op == "cfevents_enter":
+            ev["ev"] = "marker"
         elif e["out"] == "raise":
             ev["ev"] = "raise"
             ev["c"] = {"KeyboardInterrupt": 1, "SystemExit": 2, "GeneratorExit": 3}.get(e["exc"], 0)
@@ -146,6 +193,7 @@ def main(tier):
     if tier != "quick":
         hists += gen_histories(run, 14, 6, simulate="num=4000")
     progs = [to_program("h%d" % i, h) for i, h in enumerate(hists)]
+    progs += block_api_error_programs(run, tier)
     cfg = {"P": 257, "bitlength": 3, "resolution": 1}
     traces = common.run_programs(cfg, progs)
     run.evaluations += len(traces)
